@@ -46,6 +46,14 @@ func newRoot() *core.BuildState {
 	return state
 }
 
+// retire lets a root state (and its copies) be garbage collected - each holds about a megabyte of channel buffers,
+// kept alive by its result-forwarding goroutine. That goroutine ends when it forwards to a closed results channel.
+func retire(state *core.BuildState) {
+	state.Results()
+	state.CloseResults()
+	state.LogTestRunning(testTarget("//c27:retired"), 1, core.TargetTesting, "")
+}
+
 func testTarget(label string) *core.BuildTarget {
 	t := core.NewBuildTarget(core.ParseBuildLabel(label, ""))
 	t.Test = new(core.TestFields)
@@ -178,8 +186,10 @@ func statesStream(c *lib.Ctx) {
 						fmt.Sprintf("state %d (a copy) reports %v, the best state per line over all logged runs is %v", s, got, want), js(evs))
 				}
 			}
-			// per-test breakdown of the root: one entry per logged test. Copies made while Tests is still nil get a
-			// private Tests map (NewBuildState creates Files but not Tests): predicted here by following the references.
+			// per-test breakdown of the root: one entry per logged test. Regression scenario: a NewBuildState that does
+			// not create the Tests map (as it once did not) gives every state copied before its source's first Aggregate
+			// a private Tests map; what the root would then hold is predicted here by following the references, so that
+			// exactly this defect gets its own class.
 			ref, next := []int{0}, 1 // 0 = nil
 			at := map[int][]int{}    // reference -> runs recorded in that map
 			for _, e := range evs {
@@ -231,8 +241,10 @@ func statesStream(c *lib.Ctx) {
 		in := js(evs)
 		in["observed"] = jsObs
 		c.Case(lib.App("CStates", lib.List(coqEvs), lib.List(obs)), in, fmt.Sprint("s", jsRuns(runs), evs), onCopy && nruns >= 2)
+		retire(states[0])
 
-		// the same runs on the same states in other completion orders (all copies made first), all orders up to 3 runs
+		// the same runs on the same states in other completion orders (all copies made first): all orders up to 3
+		// runs, sampled ones for 4
 		var copies, logs []event
 		for _, e := range evs {
 			if e.Copy {
@@ -245,8 +257,11 @@ func statesStream(c *lib.Ctx) {
 		if nruns <= 3 {
 			lib.Perms(nruns, func(p []int) { orders = append(orders, append([]int{}, p...)) })
 		} else {
-			for k := 0; k < 6; k++ {
-				p := []int{0, 1, 2, 3}
+			for k := 0; k < c.Scale(6, 12); k++ {
+				p := make([]int, nruns)
+				for x := range p {
+					p[x] = x
+				}
 				lib.Shuffle(r, p)
 				orders = append(orders, p)
 			}
@@ -256,7 +271,9 @@ func statesStream(c *lib.Ctx) {
 			for _, idx := range o {
 				h = append(h, logs[idx])
 			}
-			oracle(h, play(h, runs, labels))
+			replayed := play(h, runs, labels)
+			oracle(h, replayed)
+			retire(replayed[0])
 			c.Eval(js(h), fmt.Sprint("s", jsRuns(runs), h), onCopy && nruns >= 2)
 		}
 	}
@@ -315,6 +332,7 @@ func stressChild(arg string) {
 		}
 		close(start)
 		wg.Wait()
+		retire(root)
 		if len(root.Coverage.Files) != sp.Files {
 			fmt.Printf(`{"round": %d, "what": "the overall report has %d files, the runs reported %d"}`+"\n", round, len(root.Coverage.Files), sp.Files)
 			return
